@@ -446,3 +446,44 @@ pub async fn queuer_step(sticky: bool, busy: &[usize], deque: &[usize], queued: 
         run(QueuerRouting::<u64, u64>::default(), busy, deque, queued, op).await
     }
 }
+
+/// Hypothesis H2: worker 0 has a job of key 5 in flight and one job of key `qkey` (message 300) queued behind it; the worker dies and the factory handles
+/// the supervision event (replacement installed, queued job handed over); then the dead incarnation's `Finished(0, 5)` - sent just before it died - is handled.
+/// Returns "after_death=<books of worker 0>;after_stale_report=<books of worker 0>" (books as `worker::verif_probe::books_of`).
+pub async fn stale_report(qkey: u64) -> String {
+    use crate::factory::worker::verif_probe as wp;
+    let (me, _mh) = Actor::spawn(None, ProbeFactoryActor, ()).await.unwrap();
+    let (rec, _got, _r) = wp::record_logging_at(0, &[qkey], &[5], false).await;
+    let dead = rec.actor.get_cell();
+    let mut pool = HashMap::new();
+    let mut worker_by_actor = HashMap::new();
+    worker_by_actor.insert(rec.actor.get_id(), 0usize);
+    pool.insert(0usize, rec);
+    let mut state: FactoryState<u64, u64, ProbeWorker, (), ScriptRouter, DefaultQueue<u64, u64>> = FactoryState {
+        factory_name: "verif".to_string(),
+        worker_builder: Box::new(ProbeBuilder),
+        pool_size: 1,
+        pool,
+        worker_by_actor,
+        stats: None,
+        router: ScriptRouter { script: Default::default(), choose: Default::default(), routed: Arc::new(Mutex::new(Vec::new())) },
+        queue: DefaultQueue::<u64, u64>::default(),
+        discard_handler: None,
+        discard_settings: DiscardSettings::None,
+        drain_state: DrainState::NotDraining,
+        dead_mans_switch: None,
+        dead_mans_check: None,
+        capacity_controller: None,
+        lifecycle_hooks: None,
+    };
+    let f: Factory<u64, u64, (), ProbeWorker, ScriptRouter, DefaultQueue<u64, u64>> = Factory::default();
+    let _ = f.handle_supervisor_evt(me.clone(), SupervisionEvent::ActorFailed(dead, "verif".into()), &mut state).await;
+    let a = wp::books_of(&state.pool[&0]);
+    let _ = state.worker_finished_job(0, 5);
+    let b = state.pool.get(&0).map(wp::books_of).unwrap_or_else(|| "gone".to_string());
+    for (_, w) in state.pool.drain() {
+        w.actor.stop(None);
+    }
+    me.stop(None);
+    format!("after_death={a};after_stale_report={b}")
+}
